@@ -123,26 +123,41 @@ def algorithms():
     return out + [None, OMIT]
 
 
-def drive(blob, data, alg, stream, rng):
-    """Returns (canonical list, sent bytes, outcome) ; outcome = ('ok', bytes) | ('exc', class name)."""
+def drive_session(blobs, calls, rng):
+    """ONE AgentSSH connection and ONE AgentKey object per blob; calls = [(key index, data, alg, reply stream)]
+    executed in order.  Bytes of a reply that a call leaves unread stay on the connection for the next call.
+    Returns per call: (canonical list, sent bytes, outcome, inner blob, the stream that call could read)."""
     from paramiko.agent import AgentSSH, AgentKey
     from paramiko.ssh_exception import SSHException
     agent = AgentSSH()
-    conn = Conn(stream, rng)
+    conn = Conn(b"", rng)
     agent._conn = conn
-    key = AgentKey(agent=agent, blob=blob)
-    inner = key.inner_key.asbytes() if key.inner_key is not None else None
-    try:
-        sig = key.sign_ssh_data(data) if alg is OMIT else key.sign_ssh_data(data, alg)
-        outcome = ("ok", bytes(sig))
-        canon = [0] + list(sig)
-    except SSHException as e:
-        outcome = ("exc", type(e).__name__)
-        canon = [1]
-    except Exception as e:     # noqa - reported as a disagreement with the model
-        outcome = ("exc", type(e).__name__)
-        canon = [98]
-    return list(conn.sent) + [-1] + canon, conn.sent, outcome, inner
+    keys = [AgentKey(agent=agent, blob=b) for b in blobs]
+    out = []
+    for ki, data, alg, reply in calls:
+        key = keys[ki]
+        conn.stream = conn.stream[conn.pos:] + reply
+        conn.pos = 0
+        conn.sent = b""
+        stream = conn.stream
+        inner = key.inner_key.asbytes() if key.inner_key is not None else None
+        try:
+            sig = key.sign_ssh_data(data) if alg is OMIT else key.sign_ssh_data(data, alg)
+            outcome = ("ok", bytes(sig))
+            canon = [0] + list(sig)
+        except SSHException as e:
+            outcome = ("exc", type(e).__name__)
+            canon = [1]
+        except Exception as e:     # noqa - reported as a disagreement with the model
+            outcome = ("exc", type(e).__name__)
+            canon = [98]
+        out.append((list(conn.sent) + [-1] + canon, conn.sent, outcome, inner, stream))
+    return out
+
+
+def drive(blob, data, alg, stream, rng):
+    """Single call on fresh objects: (canonical list, sent bytes, outcome, inner blob)."""
+    return drive_session([blob], [(0, data, alg, stream)], rng)[0][:4]
 
 
 def oracle_request(ctx, case, sent, blob, data, alg):
@@ -182,7 +197,9 @@ def run(ctx):
                 "_preferred_pubkeys / ALGORITHM_FLAG_MAP and the certificate form of each, None, omitted, and "
                 "near-miss / unknown names; replies: a framed reply of every type 0..255 (exhaustive), "
                 "well-formed SIGN_RESPONSEs with random signatures, truncated frames, EOF, short bodies, "
-                "over-long declared lengths, trailing bytes; recv() chunked randomly. Non-trivial = distinct case")
+                "over-long declared lengths, trailing bytes; recv() chunked randomly; plus sessions of 2..5 sign "
+                "calls on the same AgentKey objects (1-2 keys) over one agent connection with different data / "
+                "algorithms / reply types, every call checked. Non-trivial = distinct case")
     ctx.trusted += ["model coq/Model/C45.v is hand-written; flag map and message numbers are generated from the "
                     "live module (gen/c45.py, fail-closed)",
                     "inner_key.asbytes() is an input of the model (checked by the harness oracle against an "
@@ -275,6 +292,38 @@ def run(ctx):
             expect = ("exc", "SSHException")                                         # frame longer than stream
         one(label, blob, data, alg, stream, "malformed-%d" % mode, expect=expect)
 
+    # 4. several sign calls on the SAME AgentKey objects over ONE agent connection (different data,
+    #    algorithms, reply types); every call must behave as a first call
+    for _ in range(40 * scale):
+        nk = rng.choice([1, 1, 2])
+        chosen = [rng.choice(small if rng.random() < 0.85 else keys) for _k in range(nk)]
+        calls, expects = [], []
+        for _c in range(rng.randrange(2, 6)):
+            ki = rng.randrange(nk)
+            alg = rng.choice(list(REF_FLAGS) + [None, OMIT, "ssh-rsa", "ssh-ed25519", rng.choice(algs)])
+            data = bytes(rng.randrange(256) for _x in range(rng.choice([0, 1, 7, 32, 48])))
+            sig = bytes(rng.randrange(256) for _x in range(rng.choice([0, 3, 16, 64])))
+            if rng.random() < 0.8:
+                reply, exp = good_reply(sig), ("ok", sig)
+            else:
+                body = bytes([rng.choice([5, 13, 15, 30, 102])]) + sstr(sig)
+                reply, exp = struct.pack(">I", len(body)) + body, ("exc", "SSHException")
+            calls.append((ki, data, alg, reply))
+            expects.append(exp)
+        res = drive_session([b for _l, b in chosen], calls, rng)
+        for i, (canon, sent, outcome, inner, stream) in enumerate(res):
+            ki, data, alg, reply = calls[i]
+            label, blob = chosen[ki]
+            case = {"session": {"keys": [b for _l, b in chosen],
+                                "calls": [[c[0], c[1], "<omitted>" if c[2] is OMIT else c[2], c[3]] for c in calls[:i + 1]]},
+                    "note": "sign call number %d on the same agent connection / AgentKey objects" % (i + 1)}
+            oracle_request(ctx, case, sent, blob, data, alg)
+            if outcome != expects[i]:
+                k = "signature-changed" if expects[i][0] == "ok" else "non-signature-reply-accepted"
+                ctx.fail(k, "reply handling: expected %r" % (expects[i],), case=case, expected=expects[i], observed=outcome)
+            cases.append(((blob, inner, data, None if alg in (None, OMIT) else alg, stream), canon, case))
+            ctx.count((label, data, repr(alg), stream, i), kind="session-first" if i == 0 else "session-later")
+
     bad = ctx.model_mismatches(
         "run_sign", "(list Z * option (list Z) * list Z * option (list Z) * list Z)",
         [("(%s, %s, %s, %s, %s)" % (coq(list(b)), coq_opt(i), coq(list(d)), coq_opt(None if a is None else a.encode("utf-8")),
@@ -304,6 +353,21 @@ def replay(ctx, rep):
 
     def unhex(v):
         return bytes.fromhex(v["hex"]) if isinstance(v, dict) else v
+    if "session" in case:
+        blobs = [unhex(b) for b in case["session"]["keys"]]
+        calls = [(c[0], unhex(c[1]), OMIT if c[2] == "<omitted>" else c[2], unhex(c[3])) for c in case["session"]["calls"]]
+        res = drive_session(blobs, calls, ctx.rng)
+        ctx.count(("replay", repr(case)))
+        ctx.count(("replay2", repr(case)))
+        for i, (canon, sent, outcome, inner, stream) in enumerate(res):
+            ki, data, alg, reply = calls[i]
+            oracle_request(ctx, case, sent, blobs[ki], data, alg)
+        exp = rep.get("expected")
+        if rep.get("key") in ("signature-changed", "non-signature-reply-accepted") and exp is not None:
+            exp = (exp[0], unhex(exp[1]))
+            if res[-1][2] != exp:
+                ctx.fail(rep["key"], rep["what"], case=case, expected=exp, observed=res[-1][2])
+        return
     blob, data, stream = unhex(case["blob"]), unhex(case["data"]), unhex(case["stream"])
     alg = OMIT if case["algorithm"] == "<omitted>" else case["algorithm"]
     canon, sent, outcome, inner = drive(blob, data, alg, stream, ctx.rng)
